@@ -241,6 +241,7 @@ func (c *Ctx) ord2() {
 	dup := c.acc("ORD-2", rs, "DUP-iff-seqNo<submitN∧PUBLISH")
 	key := c.acc("ORD-2", rs, "key=seqNo&publishIDMask|space")
 	step := c.acc("ORD-2", rs, "ascending-from-offset-step-1")
+	subm := c.acc("ORD-2", rs, "submitN-advances-only-behind-a-nil-write")
 
 	// induction variable: a phi of (offset parameter, itself+1)
 	var ind *ssa.Phi
@@ -293,8 +294,8 @@ func (c *Ctx) ord2() {
 			e := &p.Events[i]
 			switch e.Kind {
 			case pathx.KAssume:
-				if cm, ok := cmpOf(e.Val, true); ok && cm.Op == token.LSS && isInd(cm.X) {
-					t := e.Truth
+				if cm, ok := cmpOf(e.Val, e.Truth); ok && isInd(cm.X) && (cm.Op == token.LSS || cm.Op == token.GEQ) {
+					t := cm.Op == token.LSS // the path established seqNo < Y (true) or seqNo >= Y (false)
 					switch roleKey(cm.Y) {
 					case "seq.acceptN":
 						if t {
@@ -303,7 +304,11 @@ func (c *Ctx) ord2() {
 							loopCond = -1
 						}
 					case "seq.submitN":
-						ltSubmit = &t
+						// the decision taken for the DUP flag is the first
+						// one on the path, ahead of the write
+						if ltSubmit == nil && iWrite < 0 {
+							ltSubmit = &t
+						}
 					}
 				}
 				if cm, ok := cmpOf(e.Val, true); ok && cm.Op == token.EQL {
@@ -348,6 +353,19 @@ func (c *Ctx) ord2() {
 				if bo, ok := strip(e.Val).(*ssa.BinOp); ok && bo.Op == token.OR {
 					if n, ok := intConst(bo.Y); ok && n == c.constInt("dupeFlag") {
 						iDupStore = i
+					}
+				}
+				if pathx.RoleOfAddr(e.Addr).Key() == "seq.submitN" {
+					okW := false
+					if iWrite >= 0 {
+						if n, k := nilResult(p, iWrite, i); n && k {
+							okW = true
+						}
+					}
+					if okW {
+						subm.pass()
+					} else {
+						subm.fail(p, i, "submitN is advanced before the packet was written with a nil result: a resend that fails here counts as submitted, and the first real transmission carries DUP")
 					}
 				}
 			}
@@ -417,6 +435,7 @@ func (c *Ctx) ord2() {
 	dup.done(2, "DUP is set exactly on paths with seqNo < submitN and type PUBLISH, before the write")
 	key.done(1, "key composed from the induction variable, the mask and the space parameter")
 	step.done(1, "loop variable starts at the offset and steps by one")
+	subm.done(1, "every store to submitN follows the nil write of that iteration")
 
 	// use in connect
 	pub := c.acc("ORD-2", cn, "publish-connection⇒both-resends-nil")
